@@ -11,7 +11,7 @@ from sa.flow import subterms
 from sa.model import AnalysisError, norm, parent, walk_no_nested
 from sa.xsd import CType, Schema, included, show_re, symbols
 
-from .common import atomic_deps, callers_of, commands, lazy_iterable, prov, reach_from
+from .common import atomic_deps, callers_of, commands, include_rules, lazy_iterable, prov, reach_from
 from .xmlcommon import documents, dyn_tag_attr, format_domain, ordered_expr, resolve_local, sorted_by_attr, sorted_source, writers
 
 
@@ -176,6 +176,9 @@ def child_elems(items, guards):
 
 
 def run(report, p):
+    # well-formedness comes first: a value written around the escaping builder makes the document invalid before any content model is looked at
+    # (shared rule, evaluated before the templates are extracted so that its verdict stands even if the template of such a writer cannot be built)
+    include_rules(report, p, 'c10', ['R10.2'], 'every variable value is escaped by the XML builder: a chain or manifest with a raw `&` or `<` from a file or folder name is not well-formed, let alone valid')
     em, mdoc, cdoc, raw = documents(p)
     domain = format_domain(p)
     xsd_dir = os.path.join(p.repo, "xsd")
@@ -408,7 +411,7 @@ def run(report, p):
             vcalls = [gg.node_for(c) for c, tg in p.calls[cf.qual] if v.qual in tg]
             r6.check(any(gg.dominates(vn, gg.node_for(call)) for vn in vcalls), cf, call, "the manifest writer is called without the validator having run")
 
-    from .common import include_rules
+    pass  # include_rules imported at module level
 
     include_rules(report, p, 'c06', ['R6.2'], "sequencenr of a chain / collection entry is xs:integer: `str(hash_list.generation_number)` is an integer literal only if every hash list is numbered before it is written (R11.2's lemma for that field)")
     include_rules(report, p, 'c15', ['R15.1'], 'a file that is published half-written (also when the run ends with an error) is not even well-formed')
